@@ -208,6 +208,12 @@ MUTANTS = [
      '  if output_max is not None and output_min is not None:\n    projected_weights = tf.minimum(projected_weights, output_max)', 'K3', 'one-sided upper bound dropped'),
     ('C06', 'internal_utils.py', '      result = [v] + result', '      result = result + [v]', 'O2', 'finish order not reversed'),
     ('C06', 'internal_utils.py', '      result = [v] + result', '      result.insert(0, v)', None, 'N: insert(0, v) instead of list concatenation'),
+    ('C01', 'lattice_layer.py', '    return self.kernel.assign(self._final_constraints(self.kernel))',
+     '    return self.kernel.assign_add(\n        self._final_constraints(self.kernel) - self.kernel)', 'R1', 'projection stored through a cancelling difference'),
+    ('C07', 'kronecker_factored_lattice_layer.py', '    finalize_scale = self.scale.assign(\n        self._final_scale_constraints(self.scale))',
+     '    finalize_scale = self.scale.assign_add(\n        self._final_scale_constraints(self.scale) - self.scale)', 'R1', 'scale stored through a cancelling difference'),
+    ('C07', 'kronecker_factored_lattice_layer.py', '    finalize_kernel = self.kernel.assign(\n        self._final_kernel_constraints(self.kernel))',
+     '    finalize_kernel = self.kernel.assign(self._final_kernel_constraints(\n        self.kernel))', None, 'N: re-wrapped assign'),
     ('C17', 'premade_lib.py', '        # going out of bound on the lattice\n        addition_score = -2.0',
      '        # going out of bound on the lattice\n        addition_score = -1.0', 'W7', 'full lattice ties with a repeat'),
     ('C17', 'premade_lib.py', '        # going out of bound on the lattice\n        addition_score = -2.0',
